@@ -292,9 +292,19 @@ func (s *c11State) step(r *gen.R) {
 		}
 		list = append(list, c11Scribble)
 	case 2:
-		h := tabular.NewRow()
+		var h *tabular.Row
+		switch r.Intn(3) {
+		case 0:
+			h = tabular.NewRow()
+			say("held := NewRow()")
+		case 1:
+			h = t.NewRowSizedFor()
+			say("held := t.NewRowSizedFor()")
+		default:
+			h = tabular.NewRowWithCapacity(r.Intn(3))
+			say("held := NewRowWithCapacity(n)")
+		}
 		s.held = append(s.held, &c11Row{h: h, src: s.newSrc()})
-		say("held := NewRow()")
 	case 3, 4:
 		if len(s.held) == 0 {
 			return
@@ -625,7 +635,7 @@ func init() {
 					}
 					return c02SeqCount(nb, 4) * 3
 				}, Run: c11Containers},
-			{Name: "random table histories with failing callbacks", N: Fixed(3000, 300000), Run: c11History},
+			{Name: "random table histories with failing callbacks", N: Fixed(3000, 2000000), Run: c11History},
 		},
 	})
 }
